@@ -117,8 +117,9 @@ def _work(arg):
         # finding about the library (with the case being processed), not a harness failure
         tb = traceback.extract_tb(e.__traceback__)
         if tb and os.path.abspath(tb[-1].filename).startswith(os.path.abspath(env.SRC) + os.sep) and isinstance(acc.current, dict):
-            acc.violation('library-exception', acc.current, 'the library raised %s: %s (at %s:%d) while this case was being checked'
-                          % (type(e).__name__, e, os.path.basename(tb[-1].filename), tb[-1].lineno), sig='library-exception:' + type(e).__name__)
+            where = ' <- '.join('%s:%d' % (os.path.basename(f.filename), f.lineno) for f in reversed(tb[-6:]))
+            acc.violation('library-exception', acc.current, 'the library raised %s: %s while this case was being checked (%s)'
+                          % (type(e).__name__, e, where), sig='library-exception:' + type(e).__name__)
             acc.caps.append('task %d aborted by a library exception' % idx)
             return idx, acc.export()
         return idx, {'harness_error': 'task %r crashed:\n%s' % (task, traceback.format_exc())}
